@@ -34,6 +34,7 @@ def symbolic_for_list(I, node, env, it, spec, k, qn):
         P.assume(i < n_t)
         x = it.elem_factory(I, "m%d" % len(it.members))
         it.members.append(x)
+        P.event('loop.item', k, x)
         I.assign(node.target, x, env)
         snap = R._heap_snapshot(I, env)
         try:
